@@ -25,3 +25,5 @@ def run(ctx):
         c04_tables.run(ctx, crate)
     if ctx.tier == "thorough":
         guards(ctx, ctx.crate("dbg"), "[dbg]")
+    from rules import controls
+    controls.guard_controls(ctx)
